@@ -430,6 +430,8 @@ impl TypeSerialize {
     }
     #[doc(hidden)]
     pub fn serialize(&mut self) -> Result<()> {
+        // Serializing the same builder again must not append a second type section.
+        self.result.clear();
         leb128_encode(&mut self.result, self.type_table.len() as u64)?;
         self.result.append(&mut self.type_table.concat());
 
